@@ -116,6 +116,31 @@ def run_property(pid, tier="quick", replay=None, repo_root=None, write_evidence=
         say(traceback.format_exc())
         return 2, out, []
 
+    # call-history independence is part of every "equals exactly ..." property: the STATE rule (module-level containers, functools caches)
+    # is run for every module a property is anchored in, unless the property module already did
+    try:
+        from .rules import module_state_rule
+        have = {r.func.rsplit(".", 1)[0] for r in results if r.rule == "STATE"}
+        for short in sorted({q.rsplit(".", 1)[0] for q in getattr(mod, "ANCHORS", [])}):
+            if short in repo.mods and short not in have:
+                results.extend(module_state_rule(repo, short))
+        # slice bounds written `-e` with a computed e: e >= 1 on every path (engine rule, every anchored function)
+        from .rules import negative_slice_rule
+        keys = {r.key for r in results}
+        for q in getattr(mod, "ANCHORS", []):
+            if repo.has_func(q):
+                try:
+                    for r in negative_slice_rule(repo.func(q)):
+                        if r.key not in keys:
+                            results.append(r)
+                            keys.add(r.key)
+                except AnalysisError:
+                    raise
+                except Exception as e:
+                    results.append(unrecognised("R-SLICE0", q, "slice bounds of the form -e", "engine failed: %s" % str(e)[:100]))
+    except AnalysisError as e:
+        say("ANALYSIS-ERROR property=%s %s" % (pid, e))
+        return 2, out, []
     verdicts = [r for r in results if not r.note]
     notes = [r for r in results if r.note]
     equiv_note = None
@@ -149,7 +174,7 @@ def run_property(pid, tier="quick", replay=None, repo_root=None, write_evidence=
             equiv_note = "equivalence fallback crashed (%s: %s): verdicts unchanged" % (type(e).__name__, str(e)[:120])
     # spelling-based rules cannot tell a refactoring from a defect once a function has been rewritten: their VIOLATIONs are kept only
     # while every changed function is a first-order edit of its reference version (a deletion, or one replaced statement)
-    sem_rules = set(getattr(mod, "SEMANTIC_RULES", ()))
+    sem_rules = set(getattr(mod, "SEMANTIC_RULES", ())) | {"STATE", "R-SLICE0"}
     import re as _re
     # a finding is 'absence-type' when it says that an expected construct was not found / does not have the expected spelling; a finding that
     # names a specific bad construct it did find (a recognised deviation) is positive evidence and is not gated
